@@ -150,7 +150,9 @@ US(s, L) ==
            \o UBody(s.body, L)
            \o (IF s.hasEl THEN Tag(<<W("else")>>) \o UBody(s.el, L) ELSE <<>>)
            \o Tag(<<W("endfor")>>)
-      [] s.k = "block" -> Tag(<<W("block"), W(" "), W(s.n)>>) \o UBody(s.body, L) \o Tag(<<W("endblock")>>)
+      \* ("nm": the end tag repeats the name, {% endblock name %})
+      [] s.k = "block" -> Tag(<<W("block"), W(" "), W(s.n)>>) \o UBody(s.body, L)
+                          \o Tag(<<W("endblock")>> \o (IF "nm" \in DOMAIN s THEN <<W(" "), W(s.n)>> ELSE <<>>))
       [] s.k = "extends" -> Tag(<<W("extends"), W(" ")>> \o UE(s.e, L))
       [] s.k = "macro" -> Tag(<<W("macro"), W(" "), W(s.n), W("(")>> \o UParams(s.ps, L) \o <<W(")")>>)
                           \o UBody(s.body, L) \o Tag(<<W("endmacro")>>)
